@@ -286,6 +286,14 @@ row `j` of the coordinate system's matrix, i.e. it is read as the component alon
 def vectorToCartesian (cl : GridClass) (n : Nat) (a : Angles K) (comps : Vec K) : Vec K :=
   vecMat comps (basis cl n a)
 
+/-- `_vector_to_cartesian` with its two shape checks (`pde/grids/base.py:724-731`): `none` = `DimensionError`
+when the point does not have `dim` coordinates (`nCoords`) or the number of components is not `dim` -/
+def vectorToCartesianChecked (cl : GridClass) (n : Nat) (a : Angles K) (nCoords : Nat) (comps : Vec K) :
+    Option (Vec K) :=
+  if nCoords = (csAxes cl n).length ∧ comps.length = (csAxes cl n).length then
+    some (vectorToCartesian cl n a comps)
+  else none
+
 /-- the rows of the basis matrix looked up by axis *name* in the grid's own component order
 (`axes ++ axes_symmetric`) -/
 def basisOp (cl : GridClass) (n : Nat) (a : Angles K) : Mat K :=
